@@ -54,7 +54,8 @@ META = {
                     "the Date header accessor (email.utils date parser) is not encoded; If-Modified-Since values for the static-file apps come from an ENUMERATED "
                     "recipe list (sampling, no solver verdict on the date text) combined with a symbolic If-None-Match"],
     "bounds": {"quick": {"chars": 2, "body_bytes": 3}, "thorough": {"chars": 3, "body_bytes": 4}},
-    "outside": ["longer inputs (e.g. the 4300-digit integer limit)", "Date header", "json documents beyond 'decode + parse' (deep nesting recursion limits)"],
+    "outside": ["longer symbolic inputs; the 4300-digit integer limit, NAME_MAX, recursion depth and similar length-triggered failures are probed only by the "
+                "seven CONCRETE recipes of job recipes/concrete-long-inputs (sampling, no solver verdict)", "Date header", "json documents beyond 'decode + parse' (deep nesting recursion limits)"],
     "expect_kinds": {"all": ["returned", "http-4xx"]},
 }
 
@@ -179,6 +180,8 @@ def aget(req, name):
 
 # ------------------------------------------------------------------ jobs
 def run_job(job) -> report.JobResult:
+    if job.get("kind") == "recipes":
+        return job_recipes(job)
     res = report.JobResult.new(job["name"])
     twin = job.get("twin", False)
     iface, entry, n = job["iface"], job["entry"], job["n"]
@@ -420,9 +423,98 @@ def concrete(w) -> Optional[str]:
         SSeq.NORMALIZE, SSeq.CONST_HASH = nrm, ch
 
 
+# ------------------------------------------------------------------ concrete recipes beyond the symbolic bounds (sampling, stated as such)
+def _recipe_requests():
+    """name -> callable(iface) exercising one entry point with a long / special concrete input"""
+    import os
+    import tempfile
+    import baize.asgi.responses as ARS
+    import baize.asgi.staticfiles as AS_
+    import baize.wsgi.responses as WRS
+    import baize.wsgi.staticfiles as WS_
+
+    def call_app(iface, app, path="/", headers=None):
+        headers = headers or {}
+        if iface == "wsgi":
+            env = {"REQUEST_METHOD": "GET", "PATH_INFO": path, "SCRIPT_NAME": "", "QUERY_STRING": "", "SERVER_NAME": "srv", "SERVER_PORT": "80", "wsgi.url_scheme": "http"}
+            env.update({"HTTP_" + k.upper().replace("-", "_"): v for k, v in headers.items()})
+            b"".join(app(env, lambda s_, h_, e_=None: None))
+        else:
+            import asyncio
+
+            async def send(m_):
+                pass
+
+            async def receive():
+                return {"type": "http.disconnect"}
+            asyncio.run(app({"type": "http", "method": "GET", "path": path, "root_path": "", "query_string": b"", "scheme": "http", "server": ("srv", 80),
+                             "headers": [(k.lower().encode(), v.encode("latin-1")) for k, v in headers.items()]}, receive, send))
+
+    def json_huge(iface):
+        req = preset_body(make_request(iface, {"content-type": "application/json"}), b"1" * 5000)
+        (_arun(req, "json") if iface == "asgi" else req.json)
+
+    def json_deep(iface):
+        req = preset_body(make_request(iface, {"content-type": "application/json"}), b"[" * 100000)
+        (_arun(req, "json") if iface == "asgi" else req.json)
+
+    def json_charset_nul(iface):
+        req = preset_body(make_request(iface, {"content-type": "application/json; charset=a\x00b".encode().decode("unicode_escape")}), b"1")
+        (_arun(req, "json") if iface == "asgi" else req.json)
+
+    def range_huge(iface):
+        with tempfile.TemporaryDirectory() as d:
+            p = os.path.join(d, "f.bin")
+            open(p, "wb").write(b"0123456789")
+            M_ = WRS if iface == "wsgi" else ARS
+            call_app(iface, M_.FileResponse(p), headers={"Range": "bytes=" + "1" * 5000 + "-"})
+
+    def url_port(iface):
+        u = make_request(iface, {"host": "a:b"}).url
+        u.port
+
+    def files_long_segment(iface):
+        with tempfile.TemporaryDirectory() as d:
+            M_ = WS_ if iface == "wsgi" else AS_
+            try:
+                call_app(iface, M_.Files(d), path="/" + "a" * 300)
+            except HTTPException as ex:
+                if ex.status_code != 404:
+                    raise
+
+    def pages_redirect_bad_host(iface):
+        with tempfile.TemporaryDirectory() as d:
+            os.mkdir(os.path.join(d, "sub"))
+            M_ = WS_ if iface == "wsgi" else AS_
+            call_app(iface, M_.Pages(d), path="/sub", headers={"Host": "["})
+
+    return {"json-5000-digit-int": json_huge, "json-deeply-nested": json_deep, "json-charset-with-nul": json_charset_nul, "range-5000-digit-int": range_huge,
+            "url-port-not-a-number": url_port, "files-segment-longer-than-name-max": files_long_segment, "pages-redirect-with-bad-host": pages_redirect_bad_host}
+
+
+def job_recipes(job) -> report.JobResult:
+    """CONCRETE inputs (no solver verdict): lengths far beyond the symbolic bounds that the property text names explicitly"""
+    res = report.JobResult.new(job["name"])
+    for name, fn in _recipe_requests().items():
+        for iface in ("wsgi", "asgi"):
+            res["paths"] += 1
+            res["queries"] += 1  # counted as one trivially decided obligation each; flagged as sampling in META
+            try:
+                fn(iface)
+                res.kind("returned")
+            except Exception as ex:  # noqa: BLE001
+                if allowed(ex):
+                    res.kind("http-4xx")
+                else:
+                    res.violation(f"C12/recipe/{name}/{type(ex).__name__}", {"iface": iface, "recipe": name}, f"{type(ex).__name__}: {str(ex)[:150]} escapes ({iface})", True)
+            res["validated"] += 1
+    res.sample({"recipes": sorted(_recipe_requests())})
+    return res
+
+
 def jobs(tier: str):
     b = META["bounds"][tier]
-    out = []
+    out = [dict(name="recipes/concrete-long-inputs", iface="both", entry="recipes", n=0, kind="recipes")]
     for iface in ("wsgi", "asgi"):
         for entry, variants in (
             ("content-type", [("", ""), ("text/plain; charset=", ""), ("a/b;", "=\"x")]),
